@@ -8,6 +8,7 @@ import SphericalVerif.Gen.EulerKern
 import SphericalVerif.Gen.MethodKern
 import SphericalVerif.Gen.MulKern
 import SphericalVerif.Gen.W3jKern
+import SphericalVerif.Gen.RotMKern
 import SphericalVerif.Model.Assemble
 import SphericalVerif.Model.W3j
 import SphericalVerif.Spec.Orderings
@@ -245,6 +246,18 @@ def step (line : String) : String :=
     let st := Gen.u_multiplication_helper (α := Float) (cxFun fa) 0 L1 sf.toInt! (cxFun ga) 0 L2 sg.toInt! 3 0 Lfg (sf.toInt! + sg.toInt!)
       4 5 (Float.ofBits 0x400921FB54442D18) wcalc st0
     String.intercalate " " ((List.range ((Lfg+1)*(Lfg+1))).map (fun (i : Nat) => cxs (frdC (α := Float) st 3 ((i : Nat) : Int))))
+  | "genrotM" :: L :: ellmin :: s :: ellMaxM :: r0 :: r1 :: r2 :: r3 :: are :: aim :: isA :: gre :: gim :: isG :: f =>
+    -- the matrix route of `Wigner.rotate`, all from the source: the GENERATED body of `Wigner.D` fills the flat 𝔇 array (array 3), then the
+    -- GENERATED `_rotate` (Gen/RotMKern.lean: `row @ block` as a left fold) writes the rotated weights (array 8, zero-filled); one row
+    let L := L.toNat!; let eM := ellMaxM.toNat!
+    let Rv : Array Float := #[bf r0, bf r1, bf r2, bf r3]
+    let (a, b, d, g, h) := genTables L
+    let st0 : HFMem Float := { map := ∅, dflt := 0.0 }
+    let ims := imsqrtTable [(bf are, bf aim, bf isA), (bf gre, bf gim, bf isG)]
+    let st := Gen.Wigner_D_rotor (α := Float) (fun i => Rv.getD i.toNat 0.0) 6 g h L L a b d 0 1 2 3 4 ims 5 ellmin.toInt! st0
+    let fa := parseCxArray f
+    let st2 := Gen.u_rotate (α := Float) (cxFun fa) 8 ellmin.toInt! L L 0 eM s.toInt! (fun i => frdC (α := Float) st 3 i) 1 0 0 st
+    String.intercalate " " ((Spec.yRange 0 eM).map (fun t => cxs (frdC (α := Float) st2 8 (t.1 * (t.1 + 1) + t.2))))
   | ["dfull", L, ellmin, c, s, dflt] =>
     let L := L.toNat!
     let st := runHF L L (bf c) (bf s) (bf dflt)
